@@ -5,6 +5,14 @@
 (* pictures (as digit sequences), which metadata agree, and what compare_pictures          *)
 (* answered.  TLC evaluates equality of the sample arrays, the exit-code rule and the      *)
 (* per-component difference counts (RawFileOps) and judges every line.                     *)
+(* An "rt" event is one write of a picture OBJECT the caller holds (container kind "kind",  *)
+(* write number "nth" of that object): wr is the picture the caller created the object     *)
+(* from, wra what the object holds after the write, argsame whether picture number, video  *)
+(* parameters and coding mode arguments are as before.  Write is a function of the values  *)
+(* of its arguments and changes nothing but the file: wra = wr (WriteChangedPicture), and  *)
+(* because wr is the value at creation, the second write of an object a writer damaged     *)
+(* fails RoundTripSamples.  Events of one session were recorded in ONE process, formats one *)
+(* after the other; each line is judged on its own, so no verdict may depend on history.   *)
 EXTENDS RawFileOps, Json, IOUtils, TLC, TLCExt
 
 Log == ndJsonDeserialize(IOEnv.TRACE_FILE)
@@ -25,6 +33,9 @@ ClauseRt(e) ==
                                          THEN [c |-> "RoundTripSamples", alarm |-> TRUE]
   ELSE IF e.pnr # e.pnw                  THEN [c |-> "RoundTripNumber", alarm |-> TRUE]
   ELSE IF ~e.vpeq \/ ~e.modeeq           THEN [c |-> "RoundTripMetadata", alarm |-> TRUE]
+  ELSE IF \E c \in CSet : e.wra[c] # e.wr[c]
+                                         THEN [c |-> "WriteChangedPicture", alarm |-> TRUE]
+  ELSE IF ~e.argsame                     THEN [c |-> "WriteChangedArguments", alarm |-> TRUE]
   ELSE IF Len(e.file) # FileSize(e.fmt)  THEN [c |-> "FileSize", alarm |-> FALSE]
   ELSE IF e.file # Flatten(e.wr["Y"]) \o Flatten(e.wr["C1"]) \o Flatten(e.wr["C2"])
                                          THEN [c |-> "Layout", alarm |-> FALSE]
